@@ -79,8 +79,9 @@ def stmt_text(prog, i, ibody_kinds):
         if kind == "typedvar":
             return "type(%s) :: %s" % (nm(st["tname"]), nm(st["name"]))
         # plain declarations rotate through intrinsic types (some start with the fixed-form comment letters c / d)
-        ty = ["integer", "character(len=3)", "double precision", "complex", "real"][st["ln"] % 5]
-        return ty + " :: " + nm(st["name"])
+        forms = ["integer :: %s", "character(len=3) :: %s", "double precision :: %s", "complex :: %s", "real :: %s",
+                 "real(kind=8) :: %s(3) = 0.0", "character(len=8) :: %s(2) = 'ab'", "integer(4) :: %s(2) = [1, 2]", "logical :: %s = .true."]
+        return forms[st["ln"] % len(forms)] % nm(st["name"])
     if op in ("contains", "typecontains"):
         return "contains"
     if op == "binding":
